@@ -43,7 +43,9 @@ def unauthorised(sc, n):
 CONFIG = {
     'C01': {
         'profiles': [('dropped', 40, 800), ('attest', 400, 6000), ('flows', 15, 400)],
-        'rules': [(r'VERIFY', 'V', None), (r'TX:(ReceiveMessage|ReplaceMessage|ReplaceDepositForBurn)$', 'R', r'^(ok|err|panic)')],
+        'rules': [(r'VERIFY', 'V', None), (r'TX:(ReceiveMessage|ReplaceMessage|ReplaceDepositForBurn)$', 'R', r'^(ok|err|panic)'),
+                  # "enabled attester" means: enabled and not since disabled - the attester set after every attester transaction
+                  (ATT_TX_RE, 'S', r'^attester '), (ATT_TX_RE, 'R', r'^(ok|err|panic)')],
         'monitors': [M.mon_c01],
         'level_text': 'Theorems for every message, attestation, attester list, threshold and EVERY recovery function: the verifier accepts exactly when the threshold is non-zero, the attestation is exactly threshold-many 65-byte chunks, each chunk (27/28 normalised to 0/1) recovers over keccak256(message) to the hex decoding of an enabled attester string, and the signer addresses are strictly increasing; hence an accepted attestation carries threshold-many pairwise distinct enabled keys (no duplicate, twin or reordering passes), wrong lengths are rejected, the verifier never panics, and receive / both replacements succeed only if it accepts with the attesters and threshold read from the current store. Tied to the Go verifier by differential execution of honest attestations by real secp256k1 keys under 16 mutation operators, directly and through the handlers; the quorum rule is also recomputed on the implementation trace from go-ethereum recoveries made by the harness.',
         'assumptions': ['not proved: that a recovered key means its holder signed (ECDSA unforgeability) and that honest signatures recover to the signer (exercised with real keys and both v encodings)'],
@@ -121,7 +123,7 @@ CONFIG = {
         'profiles': [('genesis', 150, 4000)],
         'rules': [(r'G-END', 'GV', None), (r'G-END', 'GI', None), (r'G-END', 'S', None), (r'EXPORT', 'XR', None), (r'EXPORT', 'X', None)],
         'monitors': [M.mon_c17],
-        'level_text': 'Theorems: validation accepts only genesis states whose five keyed lists have pairwise distinct store keys; for every validated and initialised genesis the export has the same roles and flags, the documented defaults for absent counters and a permutation of each list; for every state reachable from an initialised genesis, import of its export reproduces the store up to the pending-owner slot (store well-formedness and exportability are proved invariants). The full round-trip statement is refuted for the code as it stands (no genesis field for the pending owner: recorded known finding), with the witness in the property file. Tied to the Go code by differential execution of Validate / InitGenesis / ExportGenesis on generated genesis states with colliding keys in each list, and by evaluating export -> import on the real store (raw key/value comparison) after histories. InitGenesis and ExportGenesis are also tied by TRANSLATION: tools/goextract translates both functions of x/cctp/genesis.go on every run (loops over the genesis lists, pointer fields, the threshold panic) and C17_go_genesis_functions_are_the_model proves that the translated InitGenesis run on an empty store leaves exactly the model store and the translated ExportGenesis returns exactly the model export on every chain whose pause flags are set (GenesisState.Validate and the keeper storage methods are tied by differential execution only).',
+        'level_text': 'Theorems: validation accepts only genesis states whose five keyed lists have pairwise distinct store keys; for every validated and initialised genesis the export has the same roles and flags, the documented defaults for absent counters and a permutation of each list; for every state reachable from an initialised genesis, import of its export reproduces the store up to the pending-owner slot (store well-formedness and exportability are proved invariants). The full round-trip statement is refuted for the code as it stands (no genesis field for the pending owner: recorded known finding), with the witness in the property file. Tied to the Go code by differential execution of Validate / InitGenesis / ExportGenesis on generated genesis states with colliding keys in each list, and by evaluating export -> import on the real store (raw key/value comparison) after histories. InitGenesis and ExportGenesis are also tied by TRANSLATION: tools/goextract translates both functions of x/cctp/genesis.go on every run (loops over the genesis lists, pointer fields, the threshold panic) and C17_go_genesis_functions_are_the_model proves that the translated InitGenesis run on an empty store leaves exactly the model store and the translated ExportGenesis returns exactly the model export on every chain whose pause flags are set and GenesisState.Validate is translated too: the translated function accepts exactly the genesis states the model validate accepts (the keeper storage methods are tied by differential execution only).',
         'assumptions': ['token-pair keys are Keccak-256 digests: distinct (domain, token) pairs share a key only on a hash collision, which validation (comparing the derived keys) would reject anyway'],
     },
     'C19': {
